@@ -5,7 +5,7 @@
    deposit kernel (any translation-invariant one: C06.cell_shift_rolls), the constants, the binning.  ssreflect style. *)
 From mathcomp Require Import all_ssreflect ssralg ssrnum poly zmodp algC cyclotomic.
 From Coq Require Import List.
-From Abacus.C13 Require Import Model Spec Properties Dft.
+From Abacus.C13 Require Import Model Spec Properties Dft Hermitian.
 Set Implicit Arguments.
 Unset Strict Implicit.
 Unset Printing Implicit Defensive.
@@ -73,3 +73,56 @@ Proof.
   - move=> cfg P. exact: cross_equals_auto.
 Qed.
 Print Assumptions complex_dft_symmetries.
+
+(* Hermitian symmetry: the DFT of a REAL mesh (conj (f j) = f j in every cell — the painted density contrast) at the
+   opposite frequency is the conjugate.  This is why rfftn may store only the half mesh k3 <= N3 / 2. *)
+Theorem dft_hermitian :
+  forall (R : comRingType) (n1 n2 n3 : nat) (w1 w2 w3 : R),
+    w1 ^+ n1.+1 = 1 -> w2 ^+ n2.+1 = 1 -> w3 ^+ n3.+1 = 1 ->
+  forall cj : {rmorphism R -> R},
+    w1 * cj w1 = 1 -> w2 * cj w2 = 1 -> w3 * cj w3 = 1 ->
+  forall f : cellT n1 n2 n3 -> R, (forall j, cj (f j) = f j) ->
+  forall k, cj (dft w1 w2 w3 f k) = dft w1 w2 w3 f (- k).
+Proof. move=> R n1 n2 n3 w1 w2 w3 H1 H2 H3 cj C1 C2 C3 f fr k. exact: dft_hermitian_lemma. Qed.
+Print Assumptions dft_hermitian.
+
+(* hence the raw power |F f k|^2 of a real mesh is an even function of the mode *)
+Theorem power_even :
+  forall (R : comRingType) (n1 n2 n3 : nat) (w1 w2 w3 : R),
+    w1 ^+ n1.+1 = 1 -> w2 ^+ n2.+1 = 1 -> w3 ^+ n3.+1 = 1 ->
+  forall cj : {rmorphism R -> R}, involutive cj ->
+    w1 * cj w1 = 1 -> w2 * cj w2 = 1 -> w3 * cj w3 = 1 ->
+  forall f : cellT n1 n2 n3 -> R, (forall j, cj (f j) = f j) ->
+  forall k, dft w1 w2 w3 f (- k) * cj (dft w1 w2 w3 f (- k)) = dft w1 w2 w3 f k * cj (dft w1 w2 w3 f k).
+Proof. move=> R n1 n2 n3 w1 w2 w3 H1 H2 H3 cj cjK C1 C2 C3 f fr k. exact: power_even_lemma. Qed.
+Print Assumptions power_even.
+
+(* ★ the half mesh with multiplicities IS the full mesh: for every mesh size and every even quantity G (raw power of a real
+   mesh times the indicator of any bin that depends on the mode through squared folded frequencies), summing G over all
+   n1 n2 n3 modes equals summing over the stored half k3 <= N3 / 2 with multiplicity 1 on the planes k3 = 0 and
+   2 k3 = N3 and 2 elsewhere — the multiplicities C08.mult_sites regenerates from bin_kmu / bin_kppi. *)
+Theorem halfmesh_sum :
+  forall (V : zmodType) (n1 n2 n3 : nat) (G : cellT n1 n2 n3 -> V),
+    (forall k, G (- k) = G k) ->
+    \sum_(k : cellT n1 n2 n3) G k = \sum_(k : cellT n1 n2 n3 | in_half k) G k *+ hmult k.
+Proof. move=> V n1 n2 n3 G HG. exact: halfmesh_sum_lemma. Qed.
+Print Assumptions halfmesh_sum.
+
+(* the two together: total raw power of a real mesh over the full mesh = multiplicity-weighted total over the stored half *)
+Theorem real_mesh_power_halfmesh :
+  forall (R : comRingType) (n1 n2 n3 : nat) (w1 w2 w3 : R),
+    w1 ^+ n1.+1 = 1 -> w2 ^+ n2.+1 = 1 -> w3 ^+ n3.+1 = 1 ->
+  forall cj : {rmorphism R -> R}, involutive cj ->
+    w1 * cj w1 = 1 -> w2 * cj w2 = 1 -> w3 * cj w3 = 1 ->
+  forall f : cellT n1 n2 n3 -> R, (forall j, cj (f j) = f j) ->
+  forall sel : cellT n1 n2 n3 -> bool, (forall k, sel (- k) = sel k) ->
+  let pw k := dft w1 w2 w3 f k * cj (dft w1 w2 w3 f k) in
+  \sum_(k : cellT n1 n2 n3 | sel k) pw k = \sum_(k : cellT n1 n2 n3 | in_half k && sel k) pw k *+ hmult k.
+Proof.
+  move=> R n1 n2 n3 w1 w2 w3 H1 H2 H3 cj cjK C1 C2 C3 f fr sel sele pw.
+  rewrite big_mkcond /= (@halfmesh_sum_lemma _ n1 n2 n3 (fun k => if sel k then pw k else 0)).
+  - rewrite [RHS]big_mkcond [LHS]big_mkcond /=. apply: eq_bigr => k _.
+    by case: (in_half k) => //=; case: (sel k) => //=; rewrite mul0rn.
+  - move=> k. rewrite sele /pw. case: (sel k) => //. exact: power_even_lemma.
+Qed.
+Print Assumptions real_mesh_power_halfmesh.
